@@ -483,3 +483,126 @@ Proof.
     rewrite (span_exact (fun c => negb (is 47 c)) (a_name a)); [|rewrite En; eapply forallb_impl; [|exact Hnc]; exact Hns|now left].
     now rewrite Hpk.
 Qed.
+
+(* ---- the fields ---- *)
+Lemma isnil_sufs v : isnil (print_sufs v) = match v_sufs v with [] => true | _ => false end.
+Proof. unfold print_sufs. destruct (v_sufs v) as [|s l]; reflexivity. Qed.
+Lemma isnil_rev v : isnil (print_rev v) = match v_rev v with Some _ => false | None => true end.
+Proof. unfold print_rev. destruct (v_rev v); reflexivity. Qed.
+
+Lemma slot_fields_denote sl : wf_slot sl = true ->
+  slot_fields (slot_txt sl) (sub_txt sl) (slotop_txt sl) =
+  match sl with
+  | SNone => let z := make_comparable [nb 48] in (z, z, 0, false, false)
+  | SAny => ([], [], 0, true, false)
+  | SSame => ([], [], 0, true, true)
+  | SSlot s sub eq =>
+    let z := make_comparable s in
+    (z, match sub with Some b => make_comparable b | None => z end, 3, false, eq)
+  end.
+Proof.
+  intros Hwf. destruct sl as [| | |s sub eq]; try reflexivity.
+  cbn [wf_slot] in Hwf. apply andb_true_iff in Hwf as [Hs Hsub].
+  apply slotname_shape in Hs as (c & w & -> & _). cbn [slot_txt sub_txt slotop_txt].
+  destruct sub as [b|].
+  - apply slotname_shape in Hsub as (c2 & w2 & -> & _). destruct eq; reflexivity.
+  - destruct eq; reflexivity.
+Qed.
+
+Lemma catname_head_plain a : wfcn a -> forall rest, plain (peek (print_catname a ++ rest)) = true.
+Proof.
+  intros [Hc Hn] rest. unfold print_catname, print_cat. apply name_head_plain.
+  destruct (a_cat a) as [ct|].
+  - apply cat_shape in Hc as (a0 & w0 & -> & Ha0 & _). exact Ha0.
+  - apply name_shape in Hn as (n0 & nw & -> & Hn0 & _). exact Hn0.
+Qed.
+
+Lemma namever_chars a : wfcn a -> match a_ver a with Some v => wfv v | None => True end ->
+  forallb is_namever (print_catname a ++ print_verpart a) = true.
+Proof.
+  intros [Hc Hn] Hv. apply forallb_app_intro.
+  - unfold print_catname, print_cat. apply forallb_app_intro.
+    + destruct (a_cat a) as [ct|]; [|reflexivity]. apply cat_shape in Hc as (a0 & w0 & -> & _ & Hcc).
+      apply forallb_app_intro; [|reflexivity]. eapply forallb_impl; [|exact Hcc]. exact cat_char_namever.
+    + apply name_shape in Hn as (n0 & nw & -> & _ & Hnc). eapply forallb_impl; [|exact Hnc]. exact pkg_char_namever.
+  - unfold print_verpart. destruct (a_ver a) as [v|]; [|reflexivity]. cbn [forallb]. replace (is_namever (nb 45)) with true by reflexivity.
+    cbn [andb]. change (if a_glob a then [nb 42] else []) with (globtxt (a_glob a)).
+    eapply forallb_impl; [|now apply ver_chars]. exact ver_char_namever.
+Qed.
+
+(* the text after the name and version *)
+Definition t5 (a : atom_ast) (r : bytes) : bytes := print_use (a_use a) ++ r.
+Definition t4 (a : atom_ast) (r : bytes) : bytes := print_repo (a_repo a) ++ t5 a r.
+Definition t3 (a : atom_ast) (r : bytes) : bytes := print_slot (a_slot a) ++ t4 a r.
+
+Lemma t5_follow a r : tail_ok r -> use_follow (t5 a r).
+Proof.
+  intros Hr. unfold t5, print_use. destruct (a_use a) as [|u us]; [|right; left; reflexivity].
+  cbn [app]. destruct Hr as [ -> | H ]; [now left|right; right; exact H].
+Qed.
+Lemma t4_follow a r : tail_ok r -> slot_follow (t4 a r).
+Proof.
+  intros Hr. unfold t4, print_repo. destruct (a_repo a) as [x|].
+  - right. right. right. split; reflexivity.
+  - cbn [app]. destruct (t5_follow a r Hr) as [ H | [ H | H ] ]; [now left|right; now left|right; right; now left].
+Qed.
+Lemma t3_stops a r : tail_ok r -> stops (t3 a r).
+Proof.
+  intros Hr. unfold t3, stops, stop_char.
+  destruct (a_slot a) as [| | |s sub eq]; try (right; reflexivity).
+  cbn [print_slot app]. destruct (t4_follow a r Hr) as [ H | [ H | [ H | [ H _ ] ] ] ]; [now left| | |]; right; rewrite H; cbn; rewrite ?orb_true_r; reflexivity.
+Qed.
+
+Lemma print_atom_eq a r : print_atom a ++ r =
+  print_block (a_block a) ++ print_op (a_op a) ++ (print_catname a ++ print_verpart a) ++ t3 a r.
+Proof. unfold print_atom, t3, t4, t5. now rewrite <- !app_assoc. Qed.
+
+(* ---- atom_roundtrip ---- *)
+Theorem atom_roundtrip vnr asdep a r : wf_atom vnr asdep a = true -> (asdep = false -> r = []) -> tail_ok r ->
+  raw_parse_at (print_atom a ++ r) vnr asdep = (AOk (denote a), r).
+Proof.
+  intros Hwf Hnd Hr. unfold wf_atom in Hwf.
+  apply andb_true_iff in Hwf as [Hwf Hnouse]. apply andb_true_iff in Hwf as [Hwf Huse].
+  apply andb_true_iff in Hwf as [Hwf Hrepo]. apply andb_true_iff in Hwf as [Hwf Hslot].
+  apply andb_true_iff in Hwf as [Hwf Hver]. apply andb_true_iff in Hwf as [Hwf Hname].
+  apply andb_true_iff in Hwf as [Hwf Hcat]. apply andb_true_iff in Hwf as [Hb Ho].
+  apply N.leb_le in Hb, Ho.
+  assert (W : wfcn a) by (constructor; [destruct (a_cat a); auto|exact Hname]).
+  assert (Wv : match a_ver a with Some v => wfv v | None => True end).
+  { destruct (a_ver a) as [v|]; [|exact I]. apply andb_true_iff in Hver as [Hver _]. apply andb_true_iff in Hver as [Hver _].
+    now apply wf_version_wfv. }
+  assert (HFu : Forall (fun u => wf_use u = true) (a_use a)) by (apply Forall_forall; now apply forallb_forall).
+  assert (Hno : asdep = false -> a_use a = [] /\ r = []).
+  { intros ->. split; [|now apply Hnd]. cbn [orb] in Hnouse. destruct (a_use a); [reflexivity|discriminate]. }
+  pose proof (print_atom_eq a r) as Eq. pose proof (consumed_app (print_atom a) r) as Ec.
+  remember (print_atom a ++ r) as s0 eqn:Es0. unfold raw_parse_at. rewrite Eq at 1.
+  rewrite take_prefix_print; [|assumption|assumption|rewrite <- app_assoc; now apply catname_head_plain].
+  rewrite (span_exact is_namever _ (namever_chars a W Wv)) by (apply stops_span; [exact stop_not_namever|now apply t3_stops]).
+  unfold t3. rewrite take_slot_print; [|assumption|now apply t4_follow].
+  unfold t4. rewrite take_repo_print; [|destruct (a_repo a); auto|now apply t5_follow].
+  unfold t5. rewrite use_part_print by assumption.
+  rewrite Ec. f_equal.
+  (* the header *)
+  unfold finish, atom_header, denote, print_verpart.
+  destruct (a_ver a) as [v|] eqn:Ev.
+  - apply andb_true_iff in Hver as [Hver Hglob]. apply andb_true_iff in Hver as [_ Hop].
+    change (if a_glob a then [nb 42] else []) with (globtxt (a_glob a)).
+    rewrite ver_split_version by assumption. cbn [vt_glob vt_ver vt_suf vt_rev].
+    assert (E1 : (a_op a =? R_none) && vnr = false).
+    { unfold R_none. destruct (a_op a =? 0) eqn:E0; [|reflexivity]. cbn [negb orb] in Hop. apply negb_true_iff in Hop. now rewrite Hop. }
+    rewrite E1. rewrite catname_match_print by assumption.
+    cbn [vt_glob vt_ver vt_suf vt_rev]. unfold version_fields. rewrite isnil_sufs, isnil_rev. rewrite slot_fields_denote by assumption.
+    unfold R_range, R_none, R_eq in *.
+    assert (Er : ((if a_glob a then 6 else a_op a) =? 6) = (a_glob a || (a_op a =? 6))) by (destruct (a_glob a); reflexivity).
+    assert (Ev3 : (if (if a_glob a then 6 else a_op a) =? 0 then 3 else if a_glob a then 6 else a_op a) =
+                  (if a_glob a || (a_op a =? 6) then 6 else if a_op a =? 0 then 3 else a_op a)).
+    { destruct (a_glob a); [reflexivity|]. cbn [orb]. destruct (a_op a =? 6) eqn:E6.
+      - apply N.eqb_eq in E6. now rewrite E6. - reflexivity. }
+    rewrite Er, Ev3.
+    destruct (a_slot a) as [| | |s sub eq]; destruct (v_sufs v) as [|sf0 sl]; destruct (v_rev v) as [rv|];
+      destruct (a_glob a || (a_op a =? 6)); cbn [negb andb]; rewrite <- ?app_assoc; reflexivity.
+  - apply andb_true_iff in Hver as [Hop Hglob]. rewrite app_nil_r. rewrite ver_split_none by assumption.
+    unfold R_none in *. rewrite Hop. rewrite catname_match_print by assumption.
+    rewrite slot_fields_denote by assumption. apply N.eqb_eq in Hop.
+    destruct (a_slot a) as [| | |s sub eq]; reflexivity.
+Qed.
